@@ -35,7 +35,7 @@ PROFILES = {
     'c08sched': {'n_classes': [2, 3], 'p_prio': 1.0, 'force_distinct_prio': True, 'p_prio_preempt': 1.0, 'prio_preempt_opts': ['resume', 'restart', 'resample'],
                  'p_kinds': (0.2, 0.0, 0.8, 0.0), 'sched_preempt': ['resume', 'restart', 'resample'], 'shift_servers': [0, 1, 1, 2], 'p_qcap': 0.0, 'p_qcap_sched': 0.0,
                  'p_syscap': 0.0, 'arr_scale': 0.6, 'p_ps': 0.0, 'p_cct': 0.3, 'disciplines': ['FIFO', 'FIFO', 'LIFO']},
-    'c09': {'n_nodes': [2, 3, 3, 4], 'routing_kinds': ['tm', 'nr', 'nr', 'nr', 'pb', 'fpb', 'fpb'], 'p_ccm': 0.5,
+    'c09': {'p_fpb_dup': 0.4, 'n_nodes': [2, 3, 3, 4], 'routing_kinds': ['tm', 'nr', 'nr', 'nr', 'pb', 'fpb', 'fpb'], 'p_ccm': 0.5,
             'node_routers': ['leave', 'direct', 'prob', 'jsq', 'jsq', 'lb', 'lb', 'cycle']},
     'linger': {'disciplines': ['LINGER:1.0', 'LINGER:0.4', 'SECOND', 'FIFO'], 'p_ps': 0.0, 'n_classes': [2, 2, 3], 'p_lattice': 0.3},
     'c10': {'p_split': 0.3, 'p_batch': 0.6, 'p_share_objects': 0.5, 'p_lattice': 0.55, 'run_methods': ['time', 'time', 'customers']},
@@ -51,6 +51,7 @@ PROFILES = {
             'arr_scale': 0.55, 'srv_scale': 1.0, 'p_renege': 0.2, 'p_exact': 0.0},
     'c12': {'p_kinds': (0.1, 0.0, 0.55, 0.35), 'p_ps': 0.0, 'horizons': [30.0, 50.0], 'arr_scale': 0.7},
     'c13': {'p_renege': 0.9, 'p_baulk': 0.6, 'p_kinds': (0.65, 0.0, 0.35, 0.0), 'p_ps': 0.0, 'arr_scale': 0.6, 'ren_scale': 1.0},
+    'c13inf': {'p_renege': 0.5, 'p_baulk': 1.0, 'p_kinds': (0.3, 0.5, 0.2, 0.0), 'p_ps': 0.5, 'p_ps_node': 0.6, 'arr_scale': 0.6, 'p_prio': 0.0},
     'c17': {'trackers': ['SystemPopulation', 'NodePopulation', 'NodePopulationSubset', 'GroupedNodePopulation',
                          'NodeClassMatrix', 'NodeClassMatrix', 'NaiveBlocking', 'NaiveBlocking', 'MatrixBlocking', 'MatrixBlocking'],
             'p_qcap': 0.6, 'p_ccm': 0.4, 'p_cct': 0.3, 'p_renege': 0.3, 'run_methods': ['time', 'time', 'customers']},
@@ -100,8 +101,8 @@ PLANS = {
     'C10': ([('c10', 5), ('generic', 4), ('lattice', 1), ('exactlattice', 1), ('linger', 2)], scope_all, ['C10.services']),
     'C11': ([('c11', 9), ('generic', 1)], scope_c11, ['C11.preemptions']),
     'C12': ([('c12', 7), ('slotall', 1), ('generic', 2)], scope_all, ['C12.shift_changes', 'C12.slots']),
-    'C13': ([('c13', 6), ('c13lat', 2), ('generic', 3)], scope_all, ['C13.renege_events', 'C13.baulk_decisions']),
-    'C14': ([('c14', 3), ('c14lattice', 2), ('c14wide', 4), ('c12', 1), ('c11', 1), ('c13', 1), ('ring', 1), ('c09', 1), ('exactall', 1), ('c13lat', 1), ('linger', 1)], scope_all, ['C14.runs_completed']),
+    'C13': ([('c13', 6), ('c13lat', 2), ('c13inf', 2), ('generic', 3)], scope_all, ['C13.renege_events', 'C13.baulk_decisions']),
+    'C14': ([('c14', 3), ('c14lattice', 2), ('c14wide', 4), ('c12', 1), ('c11', 1), ('c13', 1), ('ring', 1), ('c09', 1), ('exactall', 1), ('c13lat', 1), ('linger', 1), ('c07inf', 2)], scope_all, ['C14.runs_completed']),
     'C17': ([('c17', 6), ('c17ncm', 2), ('generic', 2), ('ring', 1)], lambda spec, f: bool(spec.get('tracker')), ['C17.state_comparisons']),
 }
 
